@@ -10,7 +10,9 @@ import (
 	"flag"
 	"fmt"
 	"os"
+	"runtime/pprof"
 	"sort"
+	"strings"
 )
 
 type driverFunc func(a *args) error
@@ -90,6 +92,11 @@ func main() {
 		os.Exit(2)
 	}
 	a.w = bufio.NewWriterSize(fh, 1<<20)
+	if pf := os.Getenv("VERIF_PROF"); pf != "" {
+		f, _ := os.Create(pf)
+		pprof.StartCPUProfile(f)
+		defer pprof.StopCPUProfile()
+	}
 	if err := f(a); err != nil {
 		a.w.Flush()
 		fmt.Fprintf(os.Stderr, "driver %s: %v\n", name, err)
@@ -118,3 +125,5 @@ func guard(f func()) (msg string) {
 	f()
 	return ""
 }
+
+func bytesReader(s string) *strings.Reader { return strings.NewReader(s) }
